@@ -213,14 +213,20 @@ class Operation(ABC):
             backed_grad = self.grad_post_process_fn(backed_grad, var.shape)
             assert backed_grad.shape == var.shape, (backed_grad.shape, var.shape)
             if var._grad is None:
-                backed_grad = (
-                    np.copy(backed_grad)
+                if (
                     # `backed_grad` is view of grad; we want to be able to
                     # augment tmp-grad inplace later
-                    if backed_grad.base is not None or (backed_grad is grad)
-                    else backed_grad
-                )
-                if backed_grad.dtype != var.dtype:
+                    backed_grad.base is not None
+                    or (backed_grad is grad)
+                    # The stored gradient must have the same memory layout as
+                    # `var.data`; otherwise a view of `var` (e.g. a reshape) cannot
+                    # be reproduced as a view of `var.grad`
+                    or backed_grad.strides != var.data.strides
+                ):
+                    tmp = np.empty_like(var.data)
+                    tmp[...] = backed_grad
+                    backed_grad = tmp
+                elif backed_grad.dtype != var.dtype:
                     backed_grad = backed_grad.astype(var.dtype, copy=False)
 
                 var._grad = backed_grad
